@@ -494,7 +494,8 @@ def g_hostile(rng):
     return h            # the bare token
 
 
-SQ_VALUES = ["','", "'\\''", "'\\\\'", "'a'", "'\\,'", "' '", "'='", "'\\\"'", "'x'", "',,'", "''", "'\\'", "'a", "a'", "','x", "'\u00e9'", "'{'", "'%'"]
+SQ_VALUES = ["','", "'\\''", "'\\\\'", "'a'", "'\\,'", "' '", "'='", "'\\\"'", "'x'", "',,'", "''", "'\\'", "'a", "a'", "','x", "'\u00e9'", "'{'", "'%'",
+             "'\\',x'", "'\\',k3=2'", "'\\',;'", "'a,b'", "',\\''", "'\\'','", "'\\\\,'", "'\\',\\''"]
 UQ_VALUES = ['1', '-7', 'TRUE', 'false', '1.5', '1.0e+16', 'INF', '0x1F', '101b', '20140924193040.654321+120', 'abc']
 
 
@@ -968,26 +969,31 @@ def run(run):
 
 
 def search(run):
-    """proof or K broke and the oracle saw nothing: widen the oracle-only search on the real code"""
+    """proof or K broke and the oracle saw nothing: widen the oracle-only search on the real code (bounded: about two minutes)"""
     before = len(run.violations)
     rng = run.rng
     pool = []
-    for i in range(30000):
+    known = common.load_known_all()
+
+    def fresh():
+        return [v for v in run.violations[before:] if not any(common.matches(f, PROP, v['sig']) for f in known)]
+
+    for i in range(6000):
         spec = g_path(rng, rng.choice([0, 1, 2, 3]), feat_for(rng))
         printed = oracle_path(run, spec, variant(spec, rng))
         pool.extend(printed.values())
+        del pool[:-200]
         if i % 10 == 0:
             cs = {'host': g_host(rng), 'ns': g_ns(rng), 'cls': g_name(rng)}
+            if cs['host'] is not None and cs['ns'] is None:
+                cs['ns'] = 'root'
             oracle_cpath(run, cs, {'host': swapcase_safe(cs['host'], rng), 'ns': swapcase_safe(cs['ns'], rng),
                                    'cls': swapcase_safe(cs['cls'], rng)})
-        if len(pool) > 50:
-            for _ in range(4):
-                oracle_text(run, g_text(rng, pool[-50:]))
-        known = common.load_known_all()
-        fresh = [v for v in run.violations[before:] if not any(common.matches(f, PROP, v['sig']) for f in known)]
-        if fresh:
-            return fresh
-    return []
+        for _ in range(6):
+            oracle_text(run, g_text(rng, pool))
+        if i % 50 == 0 and fresh():
+            break
+    return fresh()
 
 
 def replay(payload):
